@@ -44,6 +44,7 @@ class PostgreSQLQueryBuilder(QueryBuilder):
     def __copy__(self) -> "Self":
         newone = super().__copy__()
         newone._returns = copy(self._returns)
+        newone._distinct_on = copy(self._distinct_on)
         newone._on_conflict_do_updates = copy(self._on_conflict_do_updates)
         return newone
 
